@@ -158,6 +158,34 @@ def _partition_slice(body):
     raise ValueError("solver partition of _analysis not found")
 
 
+def _preserve_slice(body):
+    """_analysis: the `preserve_expressions` argument check and the loop that converts / preserves the update expressions"""
+    out = []
+    for st in body:
+        u = ast.unparse(st)
+        if u.startswith("if type(preserve_expressions) is bool:"):
+            out.append(st)
+        elif isinstance(st, ast.For) and out and "_find_variable_definition" in u:
+            out.append(st)
+    if len(out) != 2:
+        raise ValueError("preserve_expressions block of _analysis not found")
+    return out
+
+
+def _iv_copy_slice(body):
+    """_analysis: the loop that copies the initial values of the input into the solver dictionaries"""
+    out = [st for st in body if isinstance(st, ast.For) and ast.unparse(st).startswith("for solver_json in solvers_json:\n    solver_json['initial_values'] = {}")]
+    if len(out) != 1:
+        raise ValueError("initial-value copy loop of _analysis not found")
+    return out
+
+
+_DYN_EXPRS = {"'expression' in dyn.keys()": "(dyn.hasExpression = true)", "'expressions' in dyn.keys()": "(dyn.hasExpressions = true)",
+              "[dyn['expression']]": "[dyn.expression]", "dyn['expressions']": "dyn.expressions", "indict['dynamics']": "dyn__"}
+_SCC_FILL = {"N = self.A_.shape[0]": [("N", "n")], "A = np.zeros((N, N), dtype=int)": [("A", "(fun _ _ => false)")],
+             "scc = scipy.sparse.csgraph.connected_components(A, connection='strong')[1]": [("scc", "(sccLabels A)")]}
+
+
 GROUPS = {
     # ---------------------------------------------------------------------------------- C15
     "PySpikes": {
@@ -442,6 +470,158 @@ GROUPS = {
                 doc="the parameter filter only. A solver dictionary is seen through `SolverDict.SolverView` (which keys are present; per entry the "
                     "names of the atoms of its expression, as `expr.atoms()` / the re-parsed initial value give them); the result is, per solver in "
                     "order, the names of the supplied parameters written into its `parameters` entry (their values are `parse_expr(...).n()`: contract)")),
+        ],
+    },
+    # ---------------------------------------------------------------------------------- glue (C02 / C08 / C03)
+    "PyPreserve": {
+        "imports": ["OdeVerif.Model.PyPrelude", "OdeVerif.Model.Glue"],
+        "file": "odetoolbox/__init__.py",
+        "functions": [
+            (("_get_all_first_order_variables",), Spec(
+                name="getAllFirstOrderVariables", header="", params=[("parse", "Glue.Parse"), ("dyn__", "List Glue.Dyn")],
+                types={"variable_names": "List String", "exprs": "List String", "dyn": "Glue.Dyn", "expr": "String", "name": "String", "order": "Nat",
+                       "for:indict['dynamics']": "Glue.Dyn", "for:exprs": "String"},
+                predeclare=[("exprs", "[]")],
+                expr_map=dict(_DYN_EXPRS),
+                stmt_map={"name, order, rhs = Shape._parse_defining_expression(expr)": [("name", "(parse expr).1"), ("order", "(parse expr).2.1")]},
+                result_type="List String",
+                doc="`indict['dynamics']` is a list of `Glue.Dyn` (which of the two keys an entry has, and their values); "
+                    "`Shape._parse_defining_expression` is the parameter `parse` (it has succeeded on every expression before: `Shape.from_json`); "
+                    "`exprs` starts as `[]` (Python: unbound -- an entry with neither key is rejected by `Shape.from_json` before)")),
+            (("_find_variable_definition",), Spec(
+                name="findVariableDefinition", header="", params=[("parse", "Glue.Parse"), ("dyn__", "List Glue.Dyn"), ("name", "String"), ("order", "Nat")],
+                types={"exprs": "List String", "dyn": "Glue.Dyn", "expr": "String", "name_": "String", "order_": "Nat", "rhs": "String",
+                       "for:indict['dynamics']": "Glue.Dyn", "for:exprs": "String", "return": "Option String"},
+                predeclare=[("exprs", "[]")],
+                expr_map=dict(_DYN_EXPRS),
+                stmt_map={"name_, order_, rhs = Shape._parse_defining_expression(expr)":
+                          [("name_", "(parse expr).1"), ("order_", "(parse expr).2.1"), ("rhs", "(parse expr).2.2")]},
+                ret_option=True, result_type="Option String",
+                doc="as above; the result is Optional[str]")),
+            (("_analysis",), Spec(
+                name="preserveBlock", header="",
+                params=[("parse", "Glue.Parse"), ("repl", "String → String"), ("dyn__", "List Glue.Dyn"), ("preserve_expressions", "Glue.PArg"),
+                        ("solvers_json", "List Glue.SolverP")],
+                types={"plist": "List String", "out": "List (Nat × String × Option String)", "first_order_vars": "List String",
+                       "preserve_expressions_var": "String", "solver_json": "Glue.SolverP", "sym": "String", "expr": "Unit", "var_def_str": "Option String",
+                       "for:preserve_expressions": "String", "for:solvers_json": "Glue.SolverP",
+                       "for:solver_json['update_expressions'].items()": "(String × Unit)"},
+                predeclare=[("plist", "preserve_expressions.list"), ("out", "[]")],
+                test_map={"preserve_expressions": "(preserve_expressions.truth = true)"},
+                expr_map={"type(preserve_expressions) is bool": "(preserve_expressions.isBool = true)",
+                          "isinstance(preserve_expressions, Iterable)": "(preserve_expressions.isIterable = true)",
+                          "preserve_expressions": "plist",
+                          "_get_all_first_order_variables(indict)": "(getAllFirstOrderVariables parse dyn__)",
+                          "'update_expressions' in solver_json.keys()": "(solver_json.hasUpdate = true)",
+                          "solver_json['update_expressions'].items()": "(solver_json.update.map (fun s => (s, ())))",
+                          "preserve_expressions and sym in preserve_expressions": "(plist ≠ [] ∧ sym ∈ plist)",
+                          "'analytic' in solver_json['solver']": "(solver_json.analytic = true)",
+                          "_find_variable_definition(indict, sym, order=1)": "(findVariableDefinition parse dyn__ sym 1)",
+                          "var_def_str is not None": "(var_def_str.isSome = true)"},
+                stmt_map={"preserve_expressions = _get_all_first_order_variables(indict)": [("plist", "(getAllFirstOrderVariables parse dyn__)")],
+                          "preserve_expressions = []": [("plist", "[]")],
+                          "solver_json['update_expressions'][sym] = str(expr)": [("out", "(out ++ [(solver_json.id, sym, none)])")],
+                          "solver_json['update_expressions'][sym] = var_def_str.replace(\"'\", Config().differential_order_symbol)":
+                              [("out", "(Glue.setLast out (solver_json.id, sym, var_def_str.map repl))")]},
+                skip_prefixes=["if 'propagators' in solver_json.keys():"],
+                raise_map={"Requested to preserve expression of variable": "Glue.PErr.notFirstOrder",
+                           "parameter should be either a boolean or a list of strings": "Glue.PErr.badArgument"},
+                asserts="except", assert_error="Glue.PErr.assertFailed", error_type="Glue.PErr",
+                body_filter=_preserve_slice, end_return="out", result_type="List (Nat × String × Option String)",
+                doc="the `preserve_expressions` block only. The argument is a `Glue.PArg` (a bool, a list of names, or anything else); the names to preserve "
+                    "are kept in the separate variable `plist` (Python re-uses `preserve_expressions`); a solver dictionary is seen through `Glue.SolverP`; "
+                    "the result lists, per key of every `update_expressions` in order, `none` (the solver's own expression, converted with `str`) or "
+                    "`some text` (the user's right-hand side with `'` replaced by the differential-order symbol: `repl`); the conversion of the "
+                    "propagators to strings is skipped")),
+        ],
+    },
+    "PyInitialValues": {
+        "imports": ["OdeVerif.Model.PyPrelude", "OdeVerif.Model.Glue"],
+        "file": None,
+        "functions": [
+            (("odetoolbox/shapes.py", "Shape", "get_initial_value"), Spec(
+                name="shapeGetInitialValue", header="", params=[("iv", "List (Glue.Sym × String)"), ("sym", "Glue.Sym")],
+                expr_map={"not sym in self.initial_values.keys()": "((iv.lookup sym).isNone = true)", "self.initial_values[sym]": "((iv.lookup sym).getD \"\")"},
+                ret_option=True, result_type="Option String",
+                doc="`self.initial_values` is an association list keyed by (name, order) pairs")),
+            (("odetoolbox/shapes.py", "Shape", "get_state_variables"), Spec(
+                name="shapeGetStateVariables", header="", params=[("symbol", "String"), ("order__", "Nat")],
+                types={"all_symbols": "List Glue.Sym", "order": "Nat", "for:range(self.order)": "Nat"},
+                expr_map={"range(self.order)": "(List.range order__)", "sympy.Symbol(str(self.symbol) + derivative_symbol * order)": "(symbol, order)"},
+                result_type="List Glue.Sym",
+                doc="the symbol `name + marker * k` is the pair (name, k)")),
+            (("odetoolbox/system_of_shapes.py", "SystemOfShapes", "get_initial_value"), Spec(
+                name="systemGetInitialValue", header="", params=[("shapes", "List Glue.ShapeIv"), ("sym", "Glue.Sym")],
+                types={"shape": "Glue.ShapeIv", "for:self.shapes_": "Glue.ShapeIv", "return": "Option String"},
+                expr_map={"self.shapes_": "shapes",
+                          "str(shape.symbol) == str(sym).replace(Config().differential_order_symbol, '').replace(\"'\", '')": "(shape.symbol = sym.1)",
+                          "shape.get_initial_value(sym.replace(Config().differential_order_symbol, \"'\"))": "(shapeGetInitialValue shape.iv sym)"},
+                asserts="drop", end_return="none", result_type="Option (Option String)", ret="(some {e})",
+                doc="stripping the markers / primes from the spelling of `sym` gives its name component; re-spelling with primes is the identity on "
+                    "pairs; the final `assert False` (unknown symbol) is the result `none`")),
+            (("odetoolbox/__init__.py", "_analysis"), Spec(
+                name="initialValueCopy", header="", params=[("shapes", "List Glue.ShapeIv"), ("solvers_json", "List (List Glue.Sym)")],
+                types={"out": "List (List (Glue.Sym × Option String))", "solver_json": "List Glue.Sym", "shape": "Glue.ShapeIv", "sym": "Glue.Sym",
+                       "all_shape_symbols": "List Glue.Sym", "i": "Nat",
+                       "for:solvers_json": "(List Glue.Sym)", "for:shapes": "Glue.ShapeIv", "for:all_shape_symbols": "Glue.Sym", "for:range(shape.order)": "Nat"},
+                predeclare=[("out", "[]")],
+                expr_map={"str(sympy.Symbol(str(shape.symbol) + Config().differential_order_symbol * i))": "(shape.symbol, i)",
+                          "range(shape.order)": "(List.range shape.order)",
+                          "solver_json['state_variables']": "solver_json"},
+                stmt_map={"solver_json['initial_values'] = {}": [("out", "(out ++ [[]])")],
+                          "solver_json['initial_values'][sym] = str(shape.get_initial_value(sym.replace(Config().differential_order_symbol, \"'\")))":
+                              [("out", "(Glue.appendLastIv out (sym, shapeGetInitialValue shape.iv sym))")]},
+                body_filter=_iv_copy_slice, end_return="out", result_type="List (List (Glue.Sym × Option String))",
+                doc="the initial-value copy loop only; a solver dictionary is its `state_variables` list; state variables are (name, order) pairs; "
+                    "the result is, per solver, the (key, value) pairs written, in order (`none` is Python's `str(None)`)")),
+        ],
+    },
+    "PyGlue": {
+        "imports": ["OdeVerif.Model.PyPrelude", "OdeVerif.Model.Glue"],
+        "file": None,
+        "functions": [
+            (("odetoolbox/sympy_helpers.py", "_find_in_matrix"), Spec(
+                name="findInMatrix", header="{β : Type} [DecidableEq β]", params=[("A", "Nat → Nat → β"), ("rows", "Nat"), ("cols", "Nat"), ("el", "β")],
+                types={"num_rows": "Nat", "num_cols": "Nat", "i": "Nat", "j": "Nat", "for:range(num_rows)": "Nat", "for:range(num_cols)": "Nat",
+                       "return": "Option (Nat × Nat)"},
+                expr_map={"A.rows": "rows", "A.cols": "cols", "range(num_rows)": "(List.range num_rows)", "range(num_cols)": "(List.range num_cols)",
+                          "A[i, j]": "(A i j)"},
+                ret_option=True, result_type="Option (Nat × Nat)",
+                doc="a matrix is a function of two indices with its numbers of rows and columns; `==` on entries is decidable equality")),
+            (("odetoolbox/system_of_shapes.py", "SystemOfShapes", "get_lin_cc_symbols"), Spec(
+                name="getLinCcSymbols", header="", params=[("shapes", "List Glue.ShapeLin")],
+                types={"node_is_lin": "List (Glue.Sym × Bool)", "_node_is_lin": "Bool", "shape": "Glue.ShapeLin", "sym": "Glue.Sym",
+                       "all_shape_symbols": "List Glue.Sym", "for:self.shapes_": "Glue.ShapeLin", "for:all_shape_symbols": "Glue.Sym"},
+                predeclare=[("_node_is_lin", "false")],
+                expr_map={"self.shapes_": "shapes", "shape.is_lin_const_coeff_in(symbols, parameters=parameters)": "(shape.lin = true)",
+                          "shape.get_state_variables(derivative_symbol=Config().differential_order_symbol)": "((List.range shape.order).map (fun k => (shape.symbol, k)))",
+                          "{}": "[]", "True": "true", "False": "false"},
+                stmt_map={"symbols = list(self.x_)": [], "node_is_lin[sym] = _node_is_lin": [("node_is_lin", "(Glue.assoc node_is_lin sym _node_is_lin)")]},
+                result_type="List (Glue.Sym × Bool)",
+                doc="a shape is seen through `Glue.ShapeLin` (its symbol, order and the verdict of `is_lin_const_coeff_in`: SymPy contract); the dictionary "
+                    "is an association list with Python's assignment semantics (`Glue.assoc`); `get_state_variables` is the list of (name, k), k < order "
+                    "(its own translation: Generated/PyInitialValues.lean, `shapeGetStateVariables`)")),
+            (("odetoolbox/system_of_shapes.py", "SystemOfShapes", "shape_order_from_system_matrix"), Spec(
+                name="shapeOrderFromSystemMatrix", header="", params=[("anz", "Nat → Nat → Bool"), ("n", "Nat"), ("sccLabels", "(Nat → Nat → Bool) → Nat → Nat"), ("idx", "Nat")],
+                types={"N": "Nat", "A": "Nat → Nat → Bool", "i": "Nat", "j": "Nat", "scc": "Nat → Nat", "shape_order": "Nat",
+                       "for:range(A.shape[0])": "Nat", "for:range(A.shape[1])": "Nat"},
+                expr_map={"range(A.shape[0])": "(List.range N)", "range(A.shape[1])": "(List.range N)",
+                          "sum(scc == scc[idx])": "(Glue.sameLabelCount scc N idx)"},
+                stmt_map=dict(_SCC_FILL, **{"A[i, j] = not _is_zero(self.A_[i, j])": [("A", "(Py.update2 A i j (anz i j))")]}),
+                result_type="Nat",
+                doc="`self.A_` is seen through its non-zero pattern `anz` (`not _is_zero(.)`: SymPy contract) and its size `n`; the integer matrix handed to "
+                    "SciPy is a Boolean function of two indices; `connected_components(A, connection='strong')[1]` is the parameter `sccLabels` (SciPy "
+                    "contract; the statement is pinned verbatim); `sum(scc == scc[idx])` is `Glue.sameLabelCount`")),
+            (("odetoolbox/system_of_shapes.py", "SystemOfShapes", "get_connected_symbols"), Spec(
+                name="getConnectedSymbols", header="", params=[("anz", "Nat → Nat → Bool"), ("n", "Nat"), ("sccLabels", "(Nat → Nat → Bool) → Nat → Nat"), ("idx", "Nat")],
+                types={"N": "Nat", "A": "Nat → Nat → Bool", "i": "Nat", "j": "Nat", "scc": "Nat → Nat", "idx": "Nat", "idxs": "List Nat",
+                       "for:range(A.shape[0])": "Nat", "for:range(A.shape[1])": "Nat"},
+                expr_map={"range(A.shape[0])": "(List.range N)", "range(A.shape[1])": "(List.range N)",
+                          "[self.x_[i] for i in idx]": "idxs"},
+                stmt_map=dict(_SCC_FILL, **{"A[i, j] = not _is_zero(self.A_[i, j])": [("A", "(Py.update2 A i j (anz i j))")],
+                                            "idx = np.where(scc == scc[idx])[0]": [("idxs", "(Glue.sameLabel scc N idx)")]}),
+                result_type="List Nat",
+                doc="as above; state variables are identified with their positions in `x_`; `np.where(scc == scc[idx])[0]` is `Glue.sameLabel`")),
         ],
     },
     # ---------------------------------------------------------------------------------- C14
